@@ -1,5 +1,6 @@
 import CpModel.Proto
 import CpModel.PathContain
+import CpModel.PathLinks
 /-!
   Driver for C11 (path containment).  Text fields use `Proto.text` (decimal code points joined
   by `.`, `-` = empty).  One case per line:
@@ -11,6 +12,9 @@ import CpModel.PathContain
     cleanup CWD STORAGE (NAME STATE)*   STATE = u | f | e
     flow CWD STORAGE COOKIE|N PRESENT(0/1) GEN1 GEN2 ACTION    ACTION = none|read|write|delete|regenerate
     resolve DIRS FILES PATH             DIRS/FILES = T,T,… or `-` (absolute paths)
+    lresolve NODES FOLLOW(0/1) PATH     NODES = `-` or LOC:d | LOC:f | LOC:l:TARGET joined by `,` (tree with links)
+    sfile METHOD MATCHOK(0/1) FILENAME ROOT K1          (tools.staticfile)
+    len CWD STORAGE                     (FileSession.__len__)
 
   Output: a text, `C=T,T…`, `O=<outcome> A=<op:T,…>`, `400`, `A=…`, `enoent:T|dir:T|file:T`.
 -/
@@ -65,6 +69,19 @@ def parsePathList (s : String) : Option (List (List Str)) :=
   (s.splitOn ",").mapM fun t => (Proto.untext? t).map components
 
 def showComps (cs : List Str) : String := Proto.text ('/' :: joinSlash cs)
+
+def parseNode (s : String) : Option (List Str × Node) :=
+  match s.splitOn ":" with
+  | [loc, "d"] => (Proto.untext? loc).map fun l => (components l, .dir)
+  | [loc, "f"] => (Proto.untext? loc).map fun l => (components l, .file)
+  | [loc, "l", tgt] => do
+    let l ← Proto.untext? loc
+    let t ← Proto.untext? tgt
+    pure (components l, .link t)
+  | _ => none
+
+def parseNodes (s : String) : Option LTree :=
+  if s == "-" then some ⟨[]⟩ else ((s.splitOn ",").mapM parseNode).map fun ns => ⟨ns⟩
 
 def step (line : String) : String :=
   match Proto.fields line with
@@ -124,6 +141,29 @@ def step (line : String) : String :=
     | some (.enoent q) => "enoent:" ++ showComps q
     | some (.dir q) => "dir:" ++ showComps q
     | some (.file q) => "file:" ++ showComps q
+    | none => "bad-op"
+  | ["lresolve", ns, fl, p] =>
+    match (do
+      let t ← parseNodes ns; let fl ← parseBool fl; let p ← Proto.untext? p
+      pure (lresolve t fl p)) with
+    | some (.enoent q) => "enoent:" ++ showComps q
+    | some .eloop => "eloop"
+    | some (.dir q) => "dir:" ++ showComps q
+    | some (.file q) => "file:" ++ showComps q
+    | some (.lnk q) => "lnk:" ++ showComps q
+    | none => "bad-op"
+  | ["sfile", m, mo, f, r, k1] =>
+    match (do
+      let m ← Proto.untext? m; let mo ← parseBool mo; let f ← Proto.untext? f
+      let r ← Proto.untext? r; let k1 ← parseKind k1
+      pure (staticfile (fun _ => k1) ⟨m, mo, f, r⟩)) with
+    | some res => s!"O={showOutcome res.outcome} {showAcc res.accesses}"
+    | none => "bad-op"
+  | ["len", cwd, st] =>
+    match (do
+      let cwd ← Proto.untext? cwd; let st ← Proto.untext? st
+      pure (sessLen (sessionRoot cwd st))) with
+    | some as => showAcc as
     | none => "bad-op"
   | _ => "bad-op"
 
